@@ -185,6 +185,164 @@ class _Returns(ast.NodeTransformer):
     visit_AsyncFunctionDef = visit_ClassDef = visit_Lambda = visit_FunctionDef
 
 
+def _resugar(stmts):
+    """S = set() ; for T in IT: [if C:] S.add(E)   ->   S = {E for T in IT
+    [if C]}  (lists with append likewise): accumulate loops are given the
+    comprehension form the rules read."""
+    out = []
+    idx = 0
+    while idx < len(stmts):
+        stmt = stmts[idx]
+        nxt = stmts[idx + 1] if idx + 1 < len(stmts) else None
+        comp = _accumulate(stmt, nxt)
+        if comp is not None:
+            out.append(comp)
+            idx += 2
+            continue
+        out.append(stmt)
+        idx += 1
+    return out
+
+
+def _is_logging(stmt):
+    return isinstance(stmt, ast.Expr) and isinstance(stmt.value, ast.Call) \
+        and isinstance(stmt.value.func, ast.Attribute) and \
+        isinstance(stmt.value.func.value, ast.Name) and \
+        stmt.value.func.value.id in ('_LOGGER', 'logging', 'LOGGER', 'log')
+
+
+def _fuse(stmts):
+    """L = [E for T in IT if C] ; [logging] ; for V in L: BODY   ->
+    L = [...] ; [logging] ; for T in IT: if C: V = E; BODY
+    when C and E only read what T binds (a pure function of the element):
+    the guards of BODY are then visible to the rules as branch conditions."""
+    out = list(stmts)
+    for idx, stmt in enumerate(out):
+        if not (isinstance(stmt, ast.Assign) and len(stmt.targets) == 1 and
+                isinstance(stmt.targets[0], ast.Name) and
+                isinstance(stmt.value, (ast.ListComp, ast.GeneratorExp)) and
+                len(stmt.value.generators) == 1 and
+                stmt.value.generators[0].ifs and
+                not stmt.value.generators[0].is_async):
+            continue
+        name = stmt.targets[0].id
+        jdx = idx + 1
+        while jdx < len(out) and _is_logging(out[jdx]):
+            jdx += 1
+        if jdx >= len(out):
+            continue
+        loop = out[jdx]
+        if not (isinstance(loop, ast.For) and not loop.orelse and
+                isinstance(loop.iter, ast.Name) and loop.iter.id == name):
+            continue
+        comp = stmt.value
+        gen = comp.generators[0]
+        bound = set(n.id for n in ast.walk(gen.target)
+                    if isinstance(n, ast.Name))
+
+        def pure(expr):
+            for node in ast.walk(expr):
+                if isinstance(node, ast.Name) and node.id not in bound \
+                        and node.id not in ('len', 'bool', 'None', 'True',
+                                            'False'):
+                    return False
+                if isinstance(node, (ast.Call,)) and not (
+                        isinstance(node.func, ast.Name) and
+                        node.func.id in ('len', 'bool')):
+                    return False
+                if isinstance(node, (ast.Yield, ast.Await, ast.NamedExpr,
+                                     ast.Lambda)):
+                    return False
+            return True
+        if not all(pure(c) for c in gen.ifs) or not pure(comp.elt):
+            continue
+        # names bound by the element pattern must not be clobbered by V
+        vnames = set(n.id for n in ast.walk(loop.target)
+                     if isinstance(n, ast.Name))
+        same = ast.dump(comp.elt).replace('Load()', 'X') == \
+            ast.dump(loop.target).replace('Store()', 'X')
+        if not same and (vnames & bound):
+            continue
+        body = list(loop.body)
+        if not same:
+            bind = ast.Assign(targets=[copy.deepcopy(loop.target)],
+                              value=copy.deepcopy(comp.elt))
+            ast.copy_location(bind, loop)
+            body = [bind] + body
+        test = gen.ifs[0] if len(gen.ifs) == 1 else ast.BoolOp(
+            op=ast.And(), values=[copy.deepcopy(c) for c in gen.ifs])
+        guard = ast.If(test=copy.deepcopy(test), body=body, orelse=[])
+        ast.copy_location(guard, loop)
+        target = copy.deepcopy(gen.target)
+        for node in ast.walk(target):
+            if isinstance(node, ast.Name):
+                node.ctx = ast.Store()
+        new = ast.For(target=target, iter=copy.deepcopy(gen.iter),
+                      body=[guard], orelse=[])
+        ast.copy_location(new, loop)
+        for node in ast.walk(new):
+            if not hasattr(node, 'lineno'):
+                ast.copy_location(node, loop)
+        new._fused = name
+        out[jdx] = new
+    return out
+
+
+def _accumulate(init, loop):
+    if not (isinstance(init, ast.Assign) and len(init.targets) == 1 and
+            isinstance(init.targets[0], ast.Name) and
+            isinstance(loop, ast.For) and not loop.orelse and
+            not getattr(loop, '_desugared', None)):
+        return None
+    name = init.targets[0].id
+    val = init.value
+    kind = None
+    if isinstance(val, ast.Call) and isinstance(val.func, ast.Name) and \
+            not val.keywords and (not val.args or (
+                len(val.args) == 1 and isinstance(
+                    val.args[0], (ast.List, ast.Tuple)) and
+                not val.args[0].elts)):
+        kind = {'set': 'set', 'list': 'list'}.get(val.func.id)
+    elif isinstance(val, ast.List) and not val.elts:
+        kind = 'list'
+    if kind is None or len(loop.body) != 1:
+        return None
+    inner = loop.body[0]
+    conds = []
+    while isinstance(inner, ast.If) and not inner.orelse and \
+            len(inner.body) == 1:
+        conds.append(inner.test)
+        inner = inner.body[0]
+    if not (isinstance(inner, ast.Expr) and
+            isinstance(inner.value, ast.Call) and
+            isinstance(inner.value.func, ast.Attribute) and
+            isinstance(inner.value.func.value, ast.Name) and
+            inner.value.func.value.id == name and
+            inner.value.func.attr == ('add' if kind == 'set' else 'append')
+            and len(inner.value.args) == 1 and not inner.value.keywords):
+        return None
+    elt = inner.value.args[0]
+    for expr in [elt, loop.iter] + conds:
+        if any(isinstance(n, ast.Name) and n.id == name
+               for n in ast.walk(expr)):
+            return None
+        if any(isinstance(n, (ast.Yield, ast.YieldFrom, ast.Await,
+                              ast.NamedExpr)) for n in ast.walk(expr)):
+            return None
+    target = copy.deepcopy(loop.target)
+    gen = ast.comprehension(target=target, iter=loop.iter, ifs=conds,
+                            is_async=0)
+    cls = ast.SetComp if kind == 'set' else ast.ListComp
+    new = ast.Assign(targets=[ast.Name(id=name, ctx=ast.Store())],
+                     value=cls(elt=elt, generators=[gen]))
+    ast.copy_location(new, loop)
+    for node in ast.walk(new):
+        if not hasattr(node, 'lineno'):
+            ast.copy_location(node, loop)
+    new._resugared = True
+    return new
+
+
 class Inliner(object):
     def __init__(self, index, resolver):
         self.index = index
@@ -393,7 +551,7 @@ class Inliner(object):
         out = []
         for stmt in stmts:
             out.extend(self.stmt(caller, stmt, stack))
-        return out
+        return _fuse(_resugar(out))
 
     def _fresh(self, name):
         self.counter += 1
